@@ -260,7 +260,12 @@ func (e *Engine) evalSpec(x *Expr, se *SpecEnv) Val {
 		if l, ok := se.lets[x.Name]; ok {
 			return e.evalSpec(l, se)
 		}
+		if strings.HasPrefix(x.Name, "K_") {
+			return mkInt(IntLit(int64(kindCode(strings.TrimPrefix(x.Name, "K_")))))
+		}
 		switch x.Name {
+		case "nact":
+			return mkInt(IntLit(int64(len(se.st.actionLog))))
 		case "next0":
 			return mkInt(e.next0)
 		case "next":
@@ -477,6 +482,10 @@ func (e *Engine) evalBinary(x *Expr, se *SpecEnv) Val {
 	}
 	a := e.evalSpec(x.Args[0], se)
 	b := e.evalSpec(x.Args[1], se)
+	if (a.T == nil && a.L == nil) || (b.T == nil && b.L == nil) {
+		// a value of an action that does not exist on this path: the comparison is unconstrained
+		return mkBool(e.ctx.Fresh("undef", SBool))
+	}
 	// coerce literals to the other operand's sort
 	a, b = e.coerce(a, b)
 	var op token.Token
@@ -827,6 +836,70 @@ func (e *Engine) evalCall(x *Expr, se *SpecEnv) Val {
 		})
 		e.idxWrap(Term{"x", SInt})
 		return Val{T: nil, L: []Term{arr}}
+	case "actkind", "actobj", "actarg", "actres":
+		i := int(x.Args[0].Int)
+		log := se.st.actionLog
+		if se.cur != nil {
+			log = se.cur.actionLog
+		}
+		if i < 0 || i >= len(log) {
+			// no such action on this path: an impossible kind, a null object, unconstrained values
+			switch x.Name {
+			case "actkind":
+				return mkInt(IntLit(-1))
+			case "actobj":
+				return mkInt(IntLit(0))
+			}
+			return Val{T: nil, L: nil}
+		}
+		a := log[i]
+		switch x.Name {
+		case "actkind":
+			return mkInt(IntLit(int64(kindCode(a.Kind))))
+		case "actobj":
+			return mkInt(a.Obj)
+		case "actarg":
+			j := int(x.Args[1].Int)
+			if j >= len(a.Args) {
+				return Val{T: nil, L: nil}
+			}
+			return a.Args[j]
+		default:
+			j := int(x.Args[1].Int)
+			if j >= len(a.Res) {
+				return Val{T: nil, L: nil}
+			}
+			return a.Res[j]
+		}
+	case "oncefirst":
+		// oncefirst(o, F): the value the one invocation that ran under o's sync.Once stored into field F
+		recv := arg(0)
+		fname := x.Args[1].Name
+		loc := e.locOf(recv)
+		stt, ok := loc.T.Underlying().(*types.Struct)
+		if !ok {
+			panic(unsupported("oncefirst: not a struct"))
+		}
+		for i := 0; i < stt.NumFields(); i++ {
+			if stt.Field(i).Name() == fname {
+				ft := resolve(stt.Field(i).Type(), se.env)
+				ls := e.lay.Leaves(ft)
+				v := Val{T: ft, L: make([]Term, len(ls))}
+				for j := range ls {
+					v.L[j] = e.ctx.App(fmt.Sprintf("oncefirst_%s_%d", fname, j), ls[j].Sort, recv.L[0])
+				}
+				return v
+			}
+		}
+		panic(unsupported("oncefirst: no field %s", fname))
+	case "iface":
+		// iface(v): the interface value holding v (as produced by converting v to `any`)
+		return e.makeInterface(se.st, arg(0), types.NewInterfaceType(nil, nil))
+	case "unbox":
+		// unbox(i, T): the value of type T held by interface value i
+		return e.unbox(arg(0).L[1], e.specType(x.Args[1].Name, se))
+	case "hastype":
+		return mkBool(Eq(arg(0).L[0], e.lay.TypeID(e.specType(x.Args[1].Name, se))))
 	case "setmap":
 		return e.setMapOf(se.st, arg(0))
 	case "absmap":
